@@ -13,6 +13,7 @@ import (
 	"sort"
 	"strconv"
 	"strings"
+	"sync"
 	"unicode"
 	"unicode/utf8"
 
@@ -864,6 +865,106 @@ func genSeq(r *hx.Rand, i int) {
 	}
 }
 
+
+// ---------------------------------------------------------------- kind=conc
+
+// Concurrent first use: G goroutines, released together, meet FRESH slow-path units (unique per case
+// and round, so the package-level cache has never seen them); half call benchunit.Tidy, half read a
+// one-line input through their own benchfmt.Reader. Per unit the set of distinct results over the
+// goroutines is reported; the specification allows exactly one result per kind, the stateless one.
+const concG = 8
+
+func concCase(r *hx.Rand, rounds int) {
+	if !mine() {
+		return
+	}
+	v := hx.Pick(r, []float64{3, 100, 0, 2.5, 1e300, 7e-320, 123456789})
+	text := strconv.FormatFloat(v, 'g', -1, 64)
+	var units []string
+	for k := 0; k < rounds; k++ {
+		for j := 0; j < 4; j++ {
+			// long units: the slow path takes a while, which is the window a half-published cache
+			// entry would be visible in
+			var b strings.Builder
+			n := 6 + r.Intn(20)
+			for c := 0; c < n; c++ {
+				if c > 0 {
+					b.WriteString(hx.Pick(r, []string{"*", "-", "/", "*"}))
+				}
+				b.WriteString(hx.Pick(r, []string{"ns", "MB", "ns", "sec", "nsec", "op"}))
+			}
+			units = append(units, fmt.Sprintf("%s-c%dr%du%d", b.String(), id, k, j))
+		}
+	}
+	head := fmt.Sprintf("case %d kind=conc v=%s units=%s", id, hx.F64(v), hx.HexListS(units))
+	results := make([][concG]string, len(units))
+	for base := 0; base < len(units); base += 4 {
+		start := make(chan struct{})
+		var wg sync.WaitGroup
+		for g := 0; g < concG; g++ {
+			wg.Add(1)
+			go func(g int) {
+				defer wg.Done()
+				defer func() {
+					if e := recover(); e != nil {
+						for j := 0; j < 4; j++ {
+							if results[base+j][g] == "" {
+								results[base+j][g] = "PANIC:" + crashText(e)
+							}
+						}
+					}
+				}()
+				<-start
+				// every goroutine walks the four units of the round, starting at a different one
+				for jj := 0; jj < 4; jj++ {
+					j := (jj + g) % 4
+					u := units[base+j]
+					if g%2 == 0 {
+						tv, tu := benchunit.Tidy(v, u)
+						results[base+j][g] = "T:" + canon(tv) + ":" + hx.HexS(tu)
+					} else {
+						rd := benchfmt.NewReader(strings.NewReader("BenchmarkX 1 "+text+" "+u+"\n"), "c")
+						res := "R:none"
+						for rd.Scan() {
+							if rr, ok := rd.Result().(*benchfmt.Result); ok && len(rr.Values) == 1 {
+								res = "R:" + valStr(rr.Values[0])
+							} else {
+								res = "R:bad"
+							}
+						}
+						results[base+j][g] = res
+					}
+				}
+			}(g)
+		}
+		close(start)
+		wg.Wait()
+	}
+	bad := false
+	var out []string
+	for i := range units {
+		set := map[string]bool{}
+		for g := 0; g < concG; g++ {
+			set[results[i][g]] = true
+		}
+		var l []string
+		for k := range set {
+			l = append(l, k)
+		}
+		sort.Strings(l)
+		if len(l) != 2 {
+			bad = true
+		}
+		out = append(out, strings.Join(l, "/"))
+	}
+	_ = bad
+	o := joinOr(out, ",")
+	hx.Printf("%s tag=conc\n", head)
+	hx.Printf("obs %d conc=%s\n", id, o)
+	hx.Printf("sobs %d conc=%s\n", id, o)
+	id++
+}
+
 // ---------------------------------------------------------------- main
 
 func main() {
@@ -960,6 +1061,12 @@ func main() {
 	nf := hx.N(6000, 120000)
 	for i := 0; i < nf; i++ {
 		genFile(r)
+	}
+
+	// concurrent first use of fresh units (Tidy and separate Readers)
+	nc := hx.N(50, 500)
+	for i := 0; i < nc; i++ {
+		concCase(r, 60)
 	}
 
 	// histories of Tidy calls on fresh units (package-level cache)
